@@ -196,11 +196,18 @@ func apuDFS(l *explore.Local, _ struct{}, c apuCase) *explore.Fail {
 		}
 	}
 	if c.First < 0 {
-		for _, ev := range c.Path {
+		expired := -1
+		for i, ev := range c.Path {
 			if f := p.apply(ev, c.Full); f != nil {
 				return f
 			}
+			l.Trans(1)
+			if expired < 0 && ev.K != "w" && p.m.Map.Read(0xff26)&0x0f == 0 {
+				expired = i
+			}
 		}
+		l.Eval(1)
+		l.Outcome(uint64(p.m.Map.Read(0xff26)) | uint64(expired+1)<<8 | uint64(len(c.Path))<<32)
 		return nil
 	}
 	evs := apuAlphabets[c.Alpha]
@@ -519,6 +526,46 @@ func init() {
 					}
 				}
 			}, func() struct{} { return struct{}{} }, c18WaveCheck)
+		// "while off, writes other than to NR52 and the length registers are ignored": a length written while the power
+		// is off is the length the channel has after power-on (seen through the moment its status bit clears)
+		explore.Product(c.R, "length-written-while-off", explore.PartOpt{Bound: "one length loaded with the power on, another written with the power off, then power-on, DAC on, trigger with length counting and 4,096-cycle steps until well after the expiry; NR52 compared after every cycle", Domain: "4 channels x length values (quick: 5 per channel; thorough: all 64 / 256) x with and without a length loaded before the power-off"},
+			func(yield func(apuCase) bool) {
+				for ch := 0; ch < 4; ch++ {
+					base := uint16(0xff10 + 5*ch)
+					max := 64
+					if ch == 2 {
+						max = 256
+					}
+					vals := []int{0, 1, max / 2, max - 2, max - 1}
+					if c.Thorough() {
+						vals = nil
+						for v := 0; v < max; v++ {
+							vals = append(vals, v)
+						}
+					}
+					for _, v := range vals {
+						for _, before := range []bool{true, false} {
+							var path []apuEv
+							if before {
+								path = append(path, apuEv{K: "w", A: base + 1, V: uint8(max - 1 - v)})
+							}
+							path = append(path, apuEv{K: "w", A: 0xff26, V: 0x00}, apuEv{K: "w", A: base + 1, V: uint8(v)}, apuEv{K: "w", A: 0xff26, V: 0x80})
+							if ch == 2 {
+								path = append(path, apuEv{K: "w", A: 0xff1a, V: 0x80})
+							} else {
+								path = append(path, apuEv{K: "w", A: base + 2, V: 0xf0})
+							}
+							path = append(path, apuEv{K: "w", A: base + 4, V: 0xc0})
+							for i := 0; i < max-v+3; i++ {
+								path = append(path, apuEv{K: "t4096"})
+							}
+							if !yield(apuCase{Name: "c18", First: -1, Path: path, Alpha: "c18", Full: true}) {
+								return
+							}
+						}
+					}
+				}
+			}, func() struct{} { return struct{}{} }, apuDFS)
 		depth := 3
 		explore.Product(c.R, "write-power-time-sequences", explore.PartOpt{Bound: fmt.Sprintf("every sequence up to depth %d over %d events (thorough: additionally depth 4 over the %d events with the value set {00,FF,7F,55,08})", depth, len(a18), len(apuAlphabets["c18r"])), Domain: "from power-on; from a powered-off start; from the second half of a frame-sequencer period (plain; all length counters at 1; all length counters at 1 and all channels playing)"},
 			func(yield func(apuCase) bool) {
